@@ -8,6 +8,8 @@ import (
 	"fmt"
 	"io"
 	"net"
+	"os"
+	"strings"
 	"sync"
 
 	core_test "github.com/aperturerobotics/bifrost/core/test"
@@ -54,10 +56,23 @@ func NewNet(s *dsim.Sim) *Net {
 	lg := logrus.New()
 	lg.SetOutput(io.Discard)
 	lg.SetLevel(logrus.PanicLevel)
+	if os.Getenv("DSIM_SYSLOG") != "" {
+		// development aid: the system's own log lines go to the event log
+		lg.SetLevel(logrus.DebugLevel)
+		lg.SetOutput(logWriter{s})
+		lg.SetFormatter(&logrus.TextFormatter{DisableTimestamp: true, DisableColors: true})
+	}
 	ctx, cancel := context.WithCancel(context.Background())
 	n := &Net{S: s, Log: logrus.NewEntry(lg), ctx: ctx, cancel: cancel, pending: map[string]func(){}, Names: map[string]string{}}
 	s.KeyAlias = func(k string) string { return k }
 	return n
+}
+
+type logWriter struct{ s *dsim.Sim }
+
+func (w logWriter) Write(b []byte) (int, error) {
+	w.s.Logf("SYS %s", strings.TrimSpace(string(b)))
+	return len(b), nil
 }
 
 // Node is one bus with a peer identity.
@@ -344,7 +359,11 @@ func (nd *Node) AddQuicTransport(name, idn string, pc net.PacketConn, static map
 		h := &RecHandler{Inner: handler, OnEst: onEst}
 		tc.Rec = h
 		opts := &pconn.Opts{Quic: &transport_quic.Opts{MaxIdleTimeoutDur: "60s", DisableKeepAlive: true, DisablePathMtuDiscovery: true}}
-		t, err := pconn.NewTransport(ctx, le, pkey, h, opts, 0, pc, func(a string) (net.Addr, error) { return pnet.Addr(a), nil }, static)
+		t, err := pconn.NewTransport(ctx, le, pkey, h, opts, 0, pc, func(a string) (net.Addr, error) {
+			// "@x" is an alias spelling of address "x" (a dial string that differs from its
+			// resolved form, like a host name)
+			return pnet.Addr(strings.TrimPrefix(a, "@")), nil
+		}, static)
 		if err != nil {
 			return nil, err
 		}
